@@ -197,8 +197,16 @@ func cmdCheck(args []string) {
 		}
 	}
 	_ = orderLoops
+	slow := os.Getenv("VERIF_SLOW") != ""
+	if slow {
+		fmt.Printf("phase: load+order %.1fs\n", time.Since(t0).Seconds())
+	}
 	for _, fn := range funcs {
+		t1 := time.Now()
 		r := eng.verifyFunc(fn, false)
+		if slow && time.Since(t1).Seconds() > 1 {
+			fmt.Printf("phase: vcgen %s %.1fs\n", fn, time.Since(t1).Seconds())
+		}
 		results[fn] = r
 		if r.BindingErr != "" {
 			bindingErrs = append(bindingErrs, fn+": "+r.BindingErr)
@@ -226,7 +234,11 @@ func cmdCheck(args []string) {
 		outOfSubset = append(outOfSubset, subset...)
 		notes = append(notes, nts...)
 	}
+	tSolve := time.Now()
 	solveAll(all, opts)
+	if slow {
+		fmt.Printf("phase: solve %.1fs\n", time.Since(tSolve).Seconds())
+	}
 
 	violations := 0
 	discharged := 0
@@ -250,6 +262,13 @@ func cmdCheck(args []string) {
 			continue
 		}
 		failed = append(failed, ob)
+	}
+	if os.Getenv("VERIF_SLOW") != "" {
+		for _, ob := range all {
+			if ob.Seconds > 2 {
+				fmt.Printf("slow: %.1fs %s %s [%s]\n", ob.Seconds, ob.Name, ob.Status, ob.Solver)
+			}
+		}
 	}
 	for _, ob := range failed {
 		if kf, ok := known[ob.Name]; ok {
